@@ -704,3 +704,245 @@ Lemma dec_eq_map : forall sizes f env c mid kt vt prev st,
       else dec_full (dec sizes f) env' kt vt (N.to_nat (hdr / 2)) (prev_kvs prev) st []
   end.
 Proof. reflexivity. Qed.
+
+(* ------------------------------------------------------------------ 4. [enc] only appends *)
+Definition mono (ws ws' : wst) : Prop :=
+  forall c, (exists r, wc_bits (wget ws' c) = wc_bits (wget ws c) ++ r) /\
+            (exists r, wc_bytes (wget ws' c) = wc_bytes (wget ws c) ++ r).
+
+Lemma mono_refl : forall ws, mono ws ws.
+Proof. intros ws c. split; exists []; rewrite app_nil_r; reflexivity. Qed.
+
+Lemma mono_trans : forall a b c, mono a b -> mono b c -> mono a c.
+Proof.
+  intros a b c H1 H2 col. destruct (H1 col) as [[r1 E1] [s1 F1]]. destruct (H2 col) as [[r2 E2] [s2 F2]].
+  split.
+  - exists (r1 ++ r2). rewrite E2, E1, app_assoc. reflexivity.
+  - exists (s1 ++ s2). rewrite F2, F1, app_assoc. reflexivity.
+Qed.
+
+Lemma mono_wset : forall ws c b bs u f,
+  mono ws (wset ws c (mkWcol (wc_bits (wget ws c) ++ b) (wc_bytes (wget ws c) ++ bs) u f)).
+Proof.
+  intros ws c b bs u f c'. destruct (Pos.eq_dec c' c) as [->|N].
+  - rewrite wget_wset_same. cbn [wc_bits wc_bytes]. split; eexists; reflexivity.
+  - rewrite wget_wset_other by assumption. split; exists []; rewrite app_nil_r; reflexivity.
+Qed.
+
+Lemma mono_add_bits : forall ws c b, mono ws (add_bits ws c b).
+Proof.
+  intros ws c b. unfold add_bits.
+  pose proof (mono_wset ws c b [] (wc_u (wget ws c)) (wc_f (wget ws c))) as M.
+  rewrite app_nil_r in M. exact M.
+Qed.
+
+Lemma mono_add_bytes : forall ws c b, mono ws (add_bytes ws c b).
+Proof.
+  intros ws c b. unfold add_bytes.
+  pose proof (mono_wset ws c [] b (wc_u (wget ws c)) (wc_f (wget ws c))) as M.
+  rewrite app_nil_r in M. exact M.
+Qed.
+
+(* only the columns matter *)
+Lemma mono_cols : forall ws ws' sd tl e, mono ws ws' -> mono ws (mkWst (w_cols ws') sd tl e).
+Proof. intros ws ws' sd tl e M. exact M. Qed.
+
+Lemma mono_wfail : forall ws, mono ws (wfail ws).
+Proof. intros ws. unfold wfail. apply mono_cols. apply mono_refl. Qed.
+
+Ltac mono_triv := first [apply mono_refl | apply mono_wfail].
+
+Lemma extends_mono : forall T ws ws', mono ws ws' -> extends T ws' -> extends T ws.
+Proof.
+  intros T ws ws' M E c. destruct (M c) as [[r1 E1] [s1 F1]]. destruct (E c) as [[r2 E2] [s2 F2]].
+  split.
+  - exists (r1 ++ r2). rewrite E2, E1, app_assoc. reflexivity.
+  - exists (s1 ++ s2). rewrite F2, F1, app_assoc. reflexivity.
+Qed.
+
+Lemma mono_enc_prim : forall ws c p d a, mono ws (enc_prim ws c p d a).
+Proof.
+  intros ws c p d a.
+  destruct a as [b|v|z|v|s|? ? ?|?|?|? ?|?|?|? ?]; destruct p; cbn [enc_prim];
+    try mono_triv; try apply mono_add_bits.
+  - destruct (u64_encode (wc_u (wget ws c)) v) as [s' bs].
+    pose proof (mono_wset ws c [] bs s' (wc_f (wget ws c))) as M. rewrite app_nil_r in M. exact M.
+  - destruct (i64_encode (wc_u (wget ws c)) z) as [s' bs].
+    pose proof (mono_wset ws c [] bs s' (wc_f (wget ws c))) as M. rewrite app_nil_r in M. exact M.
+  - destruct (f64_encode (wc_f (wget ws c)) v) as [s' b].
+    pose proof (mono_wset ws c b [] (wc_u (wget ws c)) s') as M. rewrite app_nil_r in M. exact M.
+  - destruct d as [dn|]; [|apply mono_add_bytes].
+    destruct (strdict_encode (w_sd ws dn) s) as [d' bs]. apply mono_cols. apply mono_add_bytes.
+  - destruct d as [dn|]; [|apply mono_add_bytes].
+    destruct (strdict_encode (w_sd ws dn) s) as [d' bs]. apply mono_cols. apply mono_add_bytes.
+Qed.
+
+Section MonoStep.
+  Variable n : nat.
+  Hypothesis IH : forall a env t ws, (height a < n)%nat -> mono ws (enc env t a ws).
+
+  Lemma mono_fields_n : forall env' fs fts ws,
+    Forall (fun f => match f with Some x => (height x < n)%nat | None => True end) fs ->
+    mono ws (enc_fields env' fts fs ws).
+  Proof.
+    intros env'. induction fs as [|f fs IHfs]; intros fts ws HF.
+    - destruct fts; apply mono_refl.
+    - destruct fts as [|ft fts]; [apply mono_refl|].
+      cbn [enc_fields]. inversion HF as [|? ? Hf HF']; subst.
+      eapply mono_trans; [|apply IHfs; assumption].
+      destruct f as [a'|]; [apply IH; assumption|apply mono_refl].
+  Qed.
+
+  Lemma mono_elems_n : forall env' et es ws,
+    Forall (fun x => (height x < n)%nat) es -> mono ws (enc_elems env' et es ws).
+  Proof.
+    intros env' et. induction es as [|e es IHes]; intros ws HF.
+    - apply mono_refl.
+    - cbn [enc_elems]. inversion HF as [|? ? He HF']; subst.
+      eapply mono_trans; [|apply IHes; assumption]. apply IH; assumption.
+  Qed.
+
+  Lemma mono_kvs_n : forall env' kt vt l ws,
+    Forall (fun kv => (height (fst kv) < n)%nat /\ (height (snd kv) < n)%nat) l ->
+    mono ws (enc_kvs env' kt vt l ws).
+  Proof.
+    intros env' kt vt. induction l as [|[k v] l IHl]; intros ws HF.
+    - apply mono_refl.
+    - cbn [enc_kvs]. inversion HF as [|? ? [Hk Hv] HF']; subst. cbn [fst snd] in Hk, Hv.
+      eapply mono_trans; [|apply IHl; assumption].
+      apply (mono_trans _ (enc env' (resolve env' kt) k ws)); apply IH; assumption.
+  Qed.
+End MonoStep.
+
+(* heights of the members of a list *)
+Lemma height_fields_lt : forall fs m,
+  (fold_right (fun f m => Nat.max (match f with Some x => height x | None => 0%nat end) m) 0%nat fs < m)%nat ->
+  Forall (fun f => match f with Some x => (height x < m)%nat | None => True end) fs.
+Proof.
+  induction fs as [|f fs IH]; intros m H; constructor.
+  - cbn [fold_right] in H. destruct f; [lia|exact I].
+  - apply IH. cbn [fold_right] in H. lia.
+Qed.
+
+Lemma height_elems_lt : forall l m,
+  (fold_right (fun x m => Nat.max (height x) m) 0%nat l < m)%nat -> Forall (fun x => (height x < m)%nat) l.
+Proof.
+  induction l as [|x l IH]; intros m H; constructor.
+  - cbn [fold_right] in H. lia.
+  - apply IH. cbn [fold_right] in H. lia.
+Qed.
+
+Lemma height_kvs_lt : forall l m,
+  (fold_right (fun kv m => Nat.max (Nat.max (height (fst kv)) (height (snd kv))) m) 0%nat l < m)%nat ->
+  Forall (fun kv => (height (fst kv) < m)%nat /\ (height (snd kv) < m)%nat) l.
+Proof.
+  induction l as [|x l IH]; intros m H; constructor.
+  - cbn [fold_right] in H. lia.
+  - apply IH. cbn [fold_right] in H. lia.
+Qed.
+
+Lemma mono_enc_n : forall n a env t ws, (height a < n)%nat -> mono ws (enc env t a ws).
+Proof.
+  induction n as [|n IHn]; intros a env t ws Hh; [lia|].
+  destruct t as [c p d|c sid oneof d fc opts fts|c k et|c mid kt vt|k|].
+  - rewrite enc_eq_prim. apply mono_enc_prim.
+  - destruct a; try (destruct oneof; [|destruct d]; mono_triv).
+    + (* WStruct *)
+      destruct oneof; [mono_triv|]. destruct d; [mono_triv|].
+      rewrite enc_eq_struct. unfold enc_body.
+      eapply mono_trans; [apply mono_add_bits|]. apply mono_fields_n with (n := n); [exact IHn|].
+      apply height_fields_lt. cbn [height] in Hh. lia.
+    + (* WDictRef *)
+      destruct oneof; [mono_triv|]. destruct d; [|mono_triv].
+      rewrite enc_eq_dictref. apply mono_add_bits.
+    + (* WDictFull *)
+      destruct oneof; [mono_triv|]. destruct d; [|mono_triv].
+      destruct a; try mono_triv.
+      rewrite enc_eq_dictfull. cbv zeta. apply mono_cols. unfold enc_body.
+      eapply mono_trans; [apply mono_add_bits|].
+      eapply mono_trans; [apply mono_add_bits|]. apply mono_fields_n with (n := n); [exact IHn|].
+      apply height_fields_lt. cbn [height] in Hh. lia.
+    + (* WOneof *)
+      destruct oneof; [|destruct d; mono_triv].
+      rewrite enc_eq_oneof. cbv zeta. destruct alt as [a'|]; [|apply mono_add_bits].
+      eapply mono_trans; [apply mono_add_bits|]. apply IHn. cbn [height] in Hh. lia.
+  - destruct a; try mono_triv.
+    rewrite enc_eq_arr. eapply mono_trans; [apply mono_add_bits|].
+    apply mono_elems_n with (n := n); [exact IHn|]. apply height_elems_lt. cbn [height] in Hh. lia.
+  - destruct a; try mono_triv.
+    + rewrite enc_eq_mapfull. eapply mono_trans; [apply mono_add_bytes|].
+      apply mono_kvs_n with (n := n); [exact IHn|]. apply height_kvs_lt. cbn [height] in Hh. lia.
+    + rewrite enc_eq_mapvals. eapply mono_trans; [apply mono_add_bytes|].
+      apply mono_elems_n with (n := n); [exact IHn|]. apply height_elems_lt. cbn [height] in Hh. lia.
+  - destruct a; mono_triv.
+  - destruct a; mono_triv.
+Qed.
+
+Theorem mono_enc : forall a env t ws, mono ws (enc env t a ws).
+Proof. intros. apply (mono_enc_n (S (height a))). lia. Qed.
+
+Lemma mono_fields : forall env' fs fts ws, mono ws (enc_fields env' fts fs ws).
+Proof.
+  intros env'. induction fs as [|f fs IHfs]; intros fts ws.
+  - destruct fts; apply mono_refl.
+  - destruct fts as [|ft fts]; [apply mono_refl|]. cbn [enc_fields].
+    eapply mono_trans; [|apply IHfs]. destruct f; [apply mono_enc|apply mono_refl].
+Qed.
+
+Lemma mono_elems : forall env' et es ws, mono ws (enc_elems env' et es ws).
+Proof.
+  intros env' et. induction es as [|e es IHes]; intros ws; [apply mono_refl|].
+  cbn [enc_elems]. eapply mono_trans; [|apply IHes]. apply mono_enc.
+Qed.
+
+Lemma mono_kvs : forall env' kt vt l ws, mono ws (enc_kvs env' kt vt l ws).
+Proof.
+  intros env' kt vt. induction l as [|[k v] l IHl]; intros ws; [apply mono_refl|].
+  cbn [enc_kvs]. eapply mono_trans; [|apply IHl]. eapply mono_trans; apply mono_enc.
+Qed.
+
+(* ------------------------------------------------------------------ 5. iter_pow *)
+Section Run.
+  Context {S R : Type}.
+  Variable step : S -> S + R.
+
+  Fixpoint run (m : nat) (s : S) : S + R :=
+    match m with
+    | O => inl s
+    | Datatypes.S m' => match step s with inl s' => run m' s' | inr r => inr r end
+    end.
+
+  Lemma run_add : forall a b s,
+    run (a + b) s = match run a s with inl s' => run b s' | inr r => inr r end.
+  Proof.
+    induction a as [|a IH]; intros b s; [reflexivity|].
+    cbn [Nat.add run]. destruct (step s) as [s'|r]; [apply IH|reflexivity].
+  Qed.
+
+  Lemma iter_pow_run : forall k s, iter_pow k step s = run (2 ^ k) s.
+  Proof.
+    induction k as [|k IH]; intros s.
+    - cbn. destruct (step s); reflexivity.
+    - cbn [iter_pow]. rewrite Nat.pow_succ_r'.
+      replace (2 * 2 ^ k)%nat with (2 ^ k + 2 ^ k)%nat by lia.
+      rewrite run_add, IH. destruct (run (2 ^ k) s) as [s'|r]; [apply IH|reflexivity].
+  Qed.
+
+  Lemma run_done_le : forall m s r, run m s = inr r -> forall M, (m <= M)%nat -> run M s = inr r.
+  Proof.
+    induction m as [|m IH]; intros s r H M HM; [discriminate H|].
+    destruct M as [|M]; [lia|]. cbn [run] in H |- *.
+    destruct (step s) as [s'|r']; [apply (IH s' r H); lia|exact H].
+  Qed.
+End Run.
+
+Lemma loop_k_pow : N.of_nat (2 ^ loop_k) = 2 ^ 40.
+Proof. rewrite Nat2N.inj_pow. reflexivity. Qed.
+
+Lemma iter_pow_loop_k : forall {S R : Type} (step : S -> S + R) (m : nat) (s : S) (r : R),
+  run step m s = inr r -> N.of_nat m <= 2 ^ 40 -> iter_pow loop_k step s = inr r.
+Proof.
+  intros S R step m s r H Hm. rewrite iter_pow_run.
+  apply (run_done_le step m s r H). rewrite <- loop_k_pow in Hm.
+  generalize dependent (2 ^ loop_k)%nat. intros M HM. lia.
+Qed.
